@@ -60,12 +60,46 @@ def run_one(item):
         Sess._selector_cls = selcls
     ws = WebSocket('ws://127.0.0.1/chat', proxies={})
     names, texts, escaped, t0 = [], [], None, time.time()
-    msgs = [('message %d ' % i) * (1 + 700 * (i % 3)) for i in range(nmsg)]
+    msgs = [('message %d ' % i) * (1 + 60 * (i % 3)) for i in range(nmsg)]      # everything the server writes fits into the socket buffers (it writes while the client is not reading)
 
     def end(how):
         if how == 'rst':
             peer.setsockopt(socket.SOL_SOCKET, socket.SO_LINGER, struct.pack('ii', 1, 0))
         peer.close()
+    server_err = None
+
+    def serve(ev):
+        """the server's part, played from inside the consumer loop"""
+        if ev.name == 'connected':
+            peer.settimeout(2)
+            req = b''
+            while b'\r\n\r\n' not in req:
+                req += peer.recv(4096)
+            m = re.search(rb'Sec-WebSocket-Key:[ \t]*([^\r\n]+)', req, re.I)
+            accept = base64.b64encode(hashlib.sha1(m.group(1).strip() + constants.WS_KEY).digest())
+            reply = b'HTTP/1.1 101 Switching Protocols\r\nUpgrade: websocket\r\nConnection: Upgrade\r\nSec-WebSocket-Accept: ' + accept + b'\r\n\r\n'
+            body = b''.join(server_frame(1, t.encode()) for t in msgs)
+            if ending.endswith('before-reply'):
+                peer.sendall(reply[:40])
+                end(ending[:3])
+            elif ending.endswith('mid-frame'):
+                peer.sendall(reply + body + server_frame(1, b'x' * 500)[:200])
+                end(ending[:3])
+            elif ending in ('fin', 'rst'):
+                peer.sendall(reply + body)
+                if ending == 'rst':
+                    time.sleep(0.02)        # let the data arrive before the reset (a reset may discard what is in flight)
+                end(ending)
+            elif ending == 'silent-then-fin':
+                peer.sendall(reply + body)
+            elif ending == 'close-handshake':
+                peer.sendall(reply + body + server_frame(8, struct.pack('!H', 1000) + b'bye'))
+        elif ev.name == 'poll' and ending == 'silent-then-fin' and names.count('poll') == 3:
+            end('fin')
+        elif ev.name == 'closing' and ending == 'close-handshake':
+            pass
+        elif ev.name == 'poll' and ending == 'close-handshake' and names.count('poll') == 2:
+            end('fin')
     try:
         for ev in ws.connect(session_class=Sess, poll=0.05, ping_rate=0, close_timeout=0.3):
             names.append(ev.name)
@@ -74,42 +108,23 @@ def run_one(item):
             if time.time() - t0 > 10:
                 escaped = 'RUNAWAY'
                 break
-            if ev.name == 'connected':
-                peer.settimeout(2)
-                req = b''
-                while b'\r\n\r\n' not in req:
-                    req += peer.recv(4096)
-                m = re.search(rb'Sec-WebSocket-Key:[ \t]*([^\r\n]+)', req, re.I)
-                accept = base64.b64encode(hashlib.sha1(m.group(1).strip() + constants.WS_KEY).digest())
-                reply = b'HTTP/1.1 101 Switching Protocols\r\nUpgrade: websocket\r\nConnection: Upgrade\r\nSec-WebSocket-Accept: ' + accept + b'\r\n\r\n'
-                body = b''.join(server_frame(1, t.encode()) for t in msgs)
-                if ending.endswith('before-reply'):
-                    peer.sendall(reply[:40])
-                    end(ending[:3])
-                elif ending.endswith('mid-frame'):
-                    peer.sendall(reply + body + server_frame(1, b'x' * 500)[:200])
-                    end(ending[:3])
-                elif ending in ('fin', 'rst'):
-                    peer.sendall(reply + body)
-                    if ending == 'rst':
-                        time.sleep(0.02)        # let the data arrive before the reset (a reset may discard what is in flight)
-                    end(ending)
-                elif ending == 'silent-then-fin':
-                    peer.sendall(reply + body)
-                elif ending == 'close-handshake':
-                    peer.sendall(reply + body + server_frame(8, struct.pack('!H', 1000) + b'bye'))
-            elif ev.name == 'poll' and ending == 'silent-then-fin' and names.count('poll') == 3:
-                end('fin')
-            elif ev.name == 'closing' and ending == 'close-handshake':
-                pass
-            elif ev.name == 'poll' and ending == 'close-handshake' and names.count('poll') == 2:
-                end('fin')
+            try:
+                serve(ev)
+            except Exception as e:  # noqa - the harness's own server code failed (e.g. its socket timed out): not a verdict on lomond
+                server_err = '%s: %s' % (type(e).__name__, str(e)[:80])
+                break
     except Exception as e:  # noqa
         escaped = '%s: %s' % (type(e).__name__, str(e)[:120])
     try:
         peer.close()
     except Exception:  # noqa
         pass
+    if server_err:
+        try:
+            client.close()
+        except Exception:  # noqa
+            pass
+        return dict(skip='harness server side failed: ' + server_err)
     closed = client.fileno() == -1
     if not closed:
         client.close()
